@@ -144,6 +144,9 @@ def run(ck, fx, cg, tier):
             else:
                 ck.ob("R11.profile", key, True, loc(n), "exempt (%s): %s" % (cls, why), nontrivial=False)
                 exempt.append({"fn": hb["path"], "at": loc(n), "op": op, "type": prim, "class": cls, "why": why})
+    okp, whyp = shared.cargo_profiles_agree()
+    ck.ob("R11.profile", "Cargo.toml|profiles agree on the panic strategy", okp, "Cargo.toml",
+          whyp + ("" if okp else " — a failing program loses its unflushed output and exits with SIGABRT in one build but not in the other"))
     ck.extra["exempt_arithmetic"] = exempt
     ck.extra["hash_collection_uses"] = n_hash_uses
     ck.extra["env_sources"] = n_env
